@@ -734,17 +734,25 @@ def pexpr_of(obj):
         head = ["attr", ["root", "math"], name] if getattr(obj._op, "__module__", None) == "math" else ["root", name]
         return ["call", head, args]
     if isinstance(obj, R.CallRef):
-        if obj._kwargs:
-            return None
         f = pexpr_of(obj._func) if isinstance(obj._func, R.BaseRef) else None
         args = [pexpr_of(x) for x in obj._args]
         if f is None or any(a is None for a in args):
             return None
+        kws = [[k, pexpr_of(v)] for k, v in (obj._kwargs or ())]
+        if any((not isinstance(k, str)) or (not k.isidentifier()) or v is None for k, v in kws):
+            return None
+        if kws:
+            return ["callkw", f, args, kws]
         return ["call", f, args]
     if isinstance(obj, R.LiteralExpr):
         return pexpr_of(obj._arg)
     if isinstance(obj, R.BaseRef):
         return None
+    if type(obj) is float:
+        # a finite float constant: sign + the text of its magnitude (one NUMBER token for Python, opaque for the model)
+        if obj != obj or obj in (float("inf"), float("-inf")):
+            return None
+        return ["flit", math.copysign(1.0, obj) < 0, repr(abs(obj))]
     if isinstance(obj, bool) or not isinstance(obj, int):
         return None
     return ["lit", obj]
@@ -762,7 +770,9 @@ def py_tokens(text):
                 try:
                     out.append(["num", int(tok.string)])
                 except ValueError:
-                    return None
+                    if tok.string[-1] in "jJ":
+                        return None      # imaginary literal: outside the language
+                    out.append(["fnum", tok.string])
             elif tok.type == tokenize.STRING:
                 lit = ast.literal_eval(tok.string)
                 if not isinstance(lit, str):
